@@ -4,7 +4,7 @@
    the URL safe set and the escaping applied at every template hole
    REGENERATED from html_renderer.py (Gen/GenEscapes.v). *)
 From Coq Require Import ZArith List Bool.
-From Mistletoe Require Import Base.Sx Base.PyStr Model.Tree Model.HtmlRenderer Spec.HtmlSpec Proofs.HtmlSafe.
+From Mistletoe Require Import Base.Sx Base.PyStr Model.Tree Model.HtmlRenderer Model.Parser Spec.HtmlSpec Proofs.HtmlSafe Proofs.ParsedSafe.
 Import ListNotations.
 
 (* tags are properly nested *)
@@ -32,3 +32,16 @@ Theorem C08_escapers : forall o s,
   safe_textb (escape_html_text o s) = true /\ safe_textb (html_escape s) = true.
 Proof. exact escapers_safe. Qed.
 Print Assumptions C08_escapers.
+
+(* the hypothesis wf_attrs (heading level 1-6) holds for EVERY tree the parser model produces, under every
+   token configuration and for every list of lines: the level is the length of the '#' group of Heading.pattern,
+   bounded by a group-length analysis of the regex engine (Proofs/ReGroups.v) evaluated on the regenerated pattern.
+   So the vocabulary / attribute / escaping theorem holds for every input text. *)
+Theorem C08_parsed_trees_have_ranged_attributes : forall cfg lines, wf_attrs (fst (fst (parse_lines cfg lines))) = true.
+Proof. exact parsed_attrs. Qed.
+Print Assumptions C08_parsed_trees_have_ranged_attributes.
+
+Theorem C08_items_ok_for_every_input : forall cfg lines o sup hdr,
+  Forall (fun i => item_okb i = true) (render o sup hdr (fst (fst (parse_lines cfg lines)))).
+Proof. exact parsed_items_ok. Qed.
+Print Assumptions C08_items_ok_for_every_input.
